@@ -294,6 +294,46 @@ pub enum Class {
     Other,
 }
 
+/// A crowded back-rank trap: the side to move has its king behind three pawns and one rook on the
+/// back rank; the opponent has a rook on the open e-file, a loose piece on the rook's file (taking
+/// it lifts the guard of the back rank: mate in one by a QUIET rook move) and so many other men
+/// that it has 40-60 legal replies. Devices that look at only part of a long move list (late-move
+/// pruning, capped lists, narrow counters) lose the quiet mating reply only here.
+pub fn crowded_back_rank_position(rng: &mut Rng) -> Option<Pos> {
+    let mut p = Pos::empty();
+    let f_r = rng.below(4) as usize; // victim's rook on a1..d1
+    p.sq[6] = Some((Color::White, Kind::King));
+    for s in [13usize, 14, 15] {
+        p.sq[s] = Some((Color::White, Kind::Pawn));
+    }
+    p.sq[f_r] = Some((Color::White, Kind::Rook));
+    p.sq[63] = Some((Color::Black, Kind::King));
+    for s in [53usize, 54, 55] {
+        p.sq[s] = Some((Color::Black, Kind::Pawn));
+    }
+    let r_rank = rng.range(3, 7) as usize;
+    p.sq[r_rank * 8 + 4] = Some((Color::Black, Kind::Rook));
+    p.sq[48 + f_r] = Some((Color::Black, *rng.pick(&[Kind::Knight, Kind::Bishop, Kind::Knight])));
+    let n_extra = rng.range(6, 9);
+    let mut placed = 0;
+    let mut guard = 0;
+    while placed < n_extra && guard < 200 {
+        guard += 1;
+        let s = rng.below(64) as usize;
+        let (f, r) = (s % 8, s / 8);
+        if p.sq[s].is_some() || r < 2 || r > 6 || f == f_r || (f == 4 && r < r_rank) || (f >= 5 && r >= 6) {
+            continue;
+        }
+        p.sq[s] = Some((Color::Black, *rng.pick(&[Kind::Knight, Kind::Bishop, Kind::Knight, Kind::Bishop, Kind::Queen, Kind::Pawn])));
+        placed += 1;
+    }
+    p.stm = Color::White;
+    if !is_legal_position(&p) || in_check(&p, Color::White) {
+        return None;
+    }
+    Some(if rng.chance(1, 2) { mirror(&p) } else { p })
+}
+
 pub fn classify(p: &Pos) -> Vec<Class> {
     let mut out = Vec::new();
     let legal = legal_moves(p);
@@ -593,6 +633,29 @@ pub fn run(tier: Tier, seed: u64) -> i32 {
                     acc.count("underpromotion_only_mate_roots", 1);
                     roots.push((p, cl));
                     found += 1;
+                }
+            }
+        }
+        {
+            let mut found = 0;
+            for _ in 0..60 {
+                if found >= 2 {
+                    break;
+                }
+                if let Some(p) = crowded_back_rank_position(&mut rng) {
+                    let cl = classify(&p);
+                    if cl.contains(&Class::AvoidableMate) {
+                        let mut s = Solver::new(400_000);
+                        let crowded = legal_moves(&p).iter().any(|m| {
+                            let q = apply(&p, *m);
+                            legal_moves(&q).len() > 40 && s.mate_in(&q, 1) == Some(true)
+                        });
+                        if crowded {
+                            acc.count("avoidable_mate_roots_where_the_mating_side_has_40_plus_replies", 1);
+                            roots.push((p, cl));
+                            found += 1;
+                        }
+                    }
                 }
             }
         }
